@@ -79,6 +79,18 @@ class C02(Check):
     def prepare(self):
         self.K = 3 if self.thorough else 2
         self.M = menus()
+        from ..env import Rng
+        from .. import reqs
+        rng = Rng("c02-tx")
+        good = reqs.signed_script(rng)
+        self.M[("message", "tx")] += [
+            reqs.mk_tx(rng, [b""]).hex(),                      # decodes, empty scriptSig
+            reqs.mk_tx(rng, [good, b""]).hex(),                # empty scriptSig on the 2nd input
+            reqs.mk_tx(rng, [b"\x05\x01\x02"]).hex(),          # push running past the script
+            reqs.mk_tx(rng, [good]).hex() + "00",              # trailing byte
+            reqs.mk_tx(rng, [good]).hex()[:-2],                # truncated
+            reqs.mk_tx(rng, [good]).hex().upper(),             # valid, upper-case hex
+        ]
         R = dialogues.nominal_requests()
         self.templates = {
             "version": ({"command": "version"}, False),
